@@ -23,6 +23,7 @@ case "${1:-}" in
     ./target/mc/mc audit || exit 2
     # warm the other build products the quick tier needs (they are rebuilt from /repo on every run anyway)
     cargo build --offline --profile mcdev -p checks >/dev/null 2>&1 || { echo "MACHINERY-ERROR mcdev build failed"; exit 2; }
+    cargo build --offline --profile mcrel -p checks >/dev/null 2>&1 || { echo "MACHINERY-ERROR mcrel build failed"; exit 2; }
     ./target/mc/mc warm-cfg || exit 2
     exit 0 ;;
   "")
@@ -35,6 +36,12 @@ if [ "$ID" = "C05" ]; then
   # second build of the same binary at opt-level 0 (profile mcdev) for the stack-depth workers
   log=$(mktemp)
   if ! cargo build --offline --profile mcdev -p checks >"$log" 2>&1; then cat "$log"; rm -f "$log"; echo "MACHINERY-ERROR build (mcdev) failed"; exit 2; fi
+  rm -f "$log"
+fi
+if [ "$ID" = "C04" ]; then
+  # second build without debug assertions / overflow checks (profile mcrel): the release differential and memcheck workers
+  log=$(mktemp)
+  if ! cargo build --offline --profile mcrel -p checks >"$log" 2>&1; then cat "$log"; rm -f "$log"; echo "MACHINERY-ERROR build (mcrel) failed"; exit 2; fi
   rm -f "$log"
 fi
 exec ./target/mc/mc "$ID" "$@"
